@@ -4,6 +4,7 @@
 
 mod acc;
 mod cases;
+mod cfgmon;
 mod cnt;
 mod common;
 mod conc;
@@ -19,6 +20,7 @@ mod rng;
 mod seqmon;
 mod shape;
 mod stats;
+mod trees;
 
 use out::J;
 use std::collections::HashMap;
@@ -94,6 +96,10 @@ fn main() {
         std::panic::set_hook(Box::new(|_| {}));
     }
     guard::install_crash_handler();
+    if let Some(m) = args.get_usize("mask") {
+        // hide CPU capabilities from RustFFT's feature detection (hook 1); can only remove capabilities
+        rustfft::verif_hooks::set_hidden_features(m as u32);
+    }
     match args.cmd.as_str() {
         "selftest" => match selftest() {
             Ok(()) => out::emit("selftest", vec![("ok", J::Bool(true))]),
@@ -113,6 +119,9 @@ fn main() {
         "acc" => acc::run(&args),
         "fpx" => fpx::run(&args),
         "shape" => shape::run(&args),
+        "c13-table" => cfgmon::run_c13_table(&args),
+        "c14-types" => cfgmon::run_c14_types(&args),
+        "c12" => trees::run(&args),
         "c10" => seqmon::run(&args),
         "c11" => conc::run(&args),
         "c04" => planmon::run_c04(&args),
